@@ -62,8 +62,8 @@ Inductive case :=
 (* bytes.decode(utf8, surrogateescape) and str.encode(utf8, surrogateescape) *)
 | DecSE (b : bytes) (impl : text)
 | EncSE (s : text) (impl : option bytes)
-(* on a message whose stored body is init: m.set_text(s); m.get_text(strict). impl_set/impl_get = None: the code raised something the
-   model has no value for *)
+(* on a message whose stored body is init: m.set_text(s); m.get_text(strict).
+   impl_set/impl_get = None: the code raised something the model has no value for *)
 | SetGet (ct : option bytes) (init : option bytes) (s : text) (strict : bool)
          (en : bytes) (oe : eres) (dn : bytes) (od : dres)
          (impl_set : option setres) (impl_get : option getres)
